@@ -34,7 +34,17 @@ def load_corpus():
             if os.path.isfile(pf) and os.path.isfile(mf):
                 prop = json.load(open(mf)).get("property") or d.split("-")[0]
                 seeds.append({"id": f"seed-{d}", "prop": prop, "rule": None, "edits": [], "patch": pf})
-    return list(MUTANTS) + seeds, BENIGN
+    # behaviour-preserving refactorings written by independent sub-agents (benign/<PROP>/patch<n>.diff, each verified by its author with the
+    # suite and an exact differential check): ALL checks must stay silent on each of them
+    refs = []
+    bd = os.path.join(VERIF, "benign")
+    allp = [c["property_id"] for c in json.load(open(os.path.join(VERIF, "MANIFEST.json")))["checks"]]
+    if os.path.isdir(bd):
+        for d in sorted(os.listdir(bd)):
+            for f in sorted(os.listdir(os.path.join(bd, d))):
+                if f.startswith("patch") and f.endswith(".diff"):
+                    refs.append({"id": f"refactor-{d}-{f[5:-5]}", "props": allp, "edits": [], "patch": os.path.join(bd, d, f)})
+    return list(MUTANTS) + seeds, list(BENIGN) + refs
 
 
 def apply_edits(root, edits):
@@ -52,13 +62,14 @@ def run_one(kind, m, props):
     tmp = tempfile.mkdtemp(prefix="sa-mut-")
     try:
         shutil.copytree(os.path.join(REPO, "src"), os.path.join(tmp, "src"))
+        if m.get("patch"):  # the patch first: textual edits of a variant may sit on top of a refactoring
+            pf = m["patch"] if os.path.isabs(m["patch"]) else os.path.join(VERIF, m["patch"])
+            r = subprocess.run(["git", "apply", "--whitespace=nowarn", pf], cwd=tmp, capture_output=True, text=True)
+            if r.returncode != 0:
+                return {"id": m["id"], "kind": kind, "status": "stale", "detail": "patch does not apply: " + r.stderr.strip()[:200]}
         err = apply_edits(tmp, m["edits"])
         if err:
             return {"id": m["id"], "kind": kind, "status": "stale", "detail": err}
-        if m.get("patch"):
-            r = subprocess.run(["git", "apply", "--whitespace=nowarn", m["patch"]], cwd=tmp, capture_output=True, text=True)
-            if r.returncode != 0:
-                return {"id": m["id"], "kind": kind, "status": "stale", "detail": "patch does not apply: " + r.stderr.strip()[:200]}
         # the variant must still compile
         for rel, _, _ in m["edits"]:
             try:
